@@ -169,6 +169,15 @@ def rules_stabilization(run):
     run.check(isinstance(last, ast.Return) and (last.value is None or isinstance(last.value, ast.Constant) and last.value.value is None), r,
               fi.short, 'None when stable', 'must return None when nothing is left to stabilise', last)
 
+    for lp_ in [n for n in q.walk(F, False) if isinstance(n, ast.For)]:
+        for x in ast.walk(lp_):
+            if isinstance(x, ast.Return):
+                v = strip_cast(x.value) if x.value is not None else None
+                run.check(isinstance(v, ast.Call) and dotted(v.func) == 'MicroStep', r, fi.short, 'a scan only returns when it found a step to take',
+                          'the scan returns (possibly None) before every candidate state was examined: a configuration that still needs default entry is declared stable', x)
+            elif isinstance(x, ast.Break):
+                run.fail(r, fi.short, 'early exit from a stabilisation scan', 'a break stops the scan before every candidate was examined', x)
+
     r = run.rule('C02.5', 'an active orthogonal state with an inactive child is completed: some branch scans states derived from `names` '
                           '(not only the leaves), tests OrthogonalState and enters the children that are not active')
     found = False
@@ -374,6 +383,8 @@ def rules_final(run):
 
 
 def check(run):
+    from . import c06
+    c06.rules_save(run, 'C02', ('.8a', '.8b', '.8c'))
     rules_owner(run)
     rules_pairing(run)
     rules_stabilization(run)
